@@ -198,7 +198,11 @@ def evOf (s : PeerSys) : Act → Option (PeerSys × Ev)
   | .validation p accept ok sid =>
     some ({ s with validations := s.validations.erase p },
       .validation accept (if ok && s.connected then some sid else none))
-  | .cmdOpen sd dk ok sid => some (s, .cmdOpen sd dk (if ok && s.connected then some sid else none))
+  | .cmdOpen sd dk ok sid =>
+    let pendHas := match s.slot with
+      | some (.closed (some x)) => s.pending.contains x
+      | _ => false
+    some (s, .cmdOpen sd dk pendHas (if ok && s.connected then some sid else none))
   | .cmdClose => some (s, .cmdClose)
   | _ => none
 
@@ -263,28 +267,15 @@ def freshAnswer (s : PeerSys) : Act → Bool
     | _ => true
   | _ => true
 
-/-- Code-path hypothesis of `open_answered_once_partial` (known finding `dangling-pending-open`): the transport
-does not report `SubstreamOpenFailure` for the outbound substream of a stream whose inbound substream has
-already arrived — an accepted or simultaneously opened stream, state `Validating` with
-`OutboundState::OutboundInitiated`. (There `on_substream_open_failure` keeps the dead substream id as
-`pending_open`, and the next open request waits for it for ever.) -/
-def noLateOpenFailure (s : PeerSys) : Act → Bool
-  | .subFailed _ =>
-    match s.slot with
-    | some (.validating (.init _) _ _) => false
-    | _ => true
-  | _ => true
-
-/-- The reachable states of the restricted system: `Reach` minus the three known findings. -/
+/-- The reachable states of the restricted system: `Reach` minus the two known findings. -/
 inductive ReachP : PeerSys → Prop
   | init : ReachP {}
   | step {s : PeerSys} (a : Act) :
-      ReachP s → enabled s a = true → prompt s a = true → freshAnswer s a = true →
-      noLateOpenFailure s a = true → ReachP (step s a)
+      ReachP s → enabled s a = true → prompt s a = true → freshAnswer s a = true → ReachP (step s a)
 
 theorem ReachP.reach {s : PeerSys} (h : ReachP s) : Reach s := by
   induction h with
   | init => exact .init
-  | step a _ he _ _ _ ih => exact .step a ih he
+  | step a _ he _ _ ih => exact .step a ih he
 
 end Litep2pVerif.Notif
